@@ -22,7 +22,7 @@ OUTSIDE = ['the property\'s own exclusions: index/slice access, frame/position m
            'byte-level fingerprints are replaced by element-wise identity of the exact symbolic payload']
 ASSUMPTIONS = ['summary mode for Exp/Log of composed rotations (C01 contracts)']
 EXPLORER_DEFAULTS = {'quick': dict(prove_timeout_ms=20000, time_budget_s=600, max_paths=200, max_decisions=120),
-                     'thorough': dict(prove_timeout_ms=60000, time_budget_s=2400, max_paths=1000, max_decisions=200)}
+                     'thorough': dict(prove_timeout_ms=60000, time_budget_s=1200, max_paths=1000, max_decisions=200)}
 
 
 def _libs(w):
